@@ -42,6 +42,10 @@ Creds == [
   validc2sanc1             |-> [issued |-> TRUE,  cn |-> "c2"],
   validnobodysansigner2    |-> [issued |-> TRUE,  cn |-> "nobody"],
   validupperc1             |-> [issued |-> TRUE,  cn |-> "C1"],
+  \* ... and the WHOLE common name: a name that merely begins with a permitted client's (or a peer's) name, up to a dot, is another name
+  validc1dotted            |-> [issued |-> TRUE,  cn |-> "c1.partner.example"],
+  validc1trailingdot       |-> [issued |-> TRUE,  cn |-> "c1."],
+  validsigner2dotted       |-> [issued |-> TRUE,  cn |-> "signer-2.partner.example"],
   validc2plusselfsignedc1  |-> [issued |-> TRUE,  cn |-> "c2"],
   validc2plusothercac1     |-> [issued |-> TRUE,  cn |-> "c2"],
   validc1plusselfsignedsigner2 |-> [issued |-> TRUE, cn |-> "c1"],
